@@ -285,9 +285,68 @@ def _replay_cross(case):
     return {"nt": True, "labels": []}
 
 
+_WORKERS = r"""
+import sys, json, warnings, multiprocessing, threading
+warnings.filterwarnings("ignore")
+sys.path.insert(0, {verif!r})
+from mzverif import lib as L
+if __name__ == "__main__":
+    req = json.load(sys.stdin)
+    specs = req["specs"]
+    out = {{"main": [L.dataset_digest(s) for s in specs]}}
+    for method in req["methods"]:
+        ctx = multiprocessing.get_context(method)
+        with ctx.Pool(req["workers"]) as pool:
+            out["pool-" + method] = pool.map(L.dataset_digest, specs, chunksize=1)
+    box = []
+    t = threading.Thread(target=lambda: box.append([L.dataset_digest(s) for s in specs]))
+    t.start(); t.join()
+    out["thread"] = box[0]
+    print(json.dumps(out))
+"""
+
+
+def _inside_workers(n_specs: int, methods, workers: int):
+    """'in the same process or in another one': the other process may be one the *caller* created - a worker of the caller's own
+    multiprocessing pool (fork or spawn start method; e.g. a data-loader worker) or a thread - in which the dataset is generated
+    serially. Same configuration, same mazes."""
+    def run(seed_val: int):
+        stats = Stats()
+        specs = core.collect_examples(_target(False), n_specs, core.derive_seed(seed_val, "workers"))
+        txt = core.run_python(_WORKERS.format(verif=core.VERIF_DIR), {}, stdin=json.dumps({"specs": specs, "methods": list(methods), "workers": workers}), timeout=1500)
+        out = json.loads(txt.strip().splitlines()[-1])
+        fails = []
+        for i, s in enumerate(specs):
+            vals = {k: v[i] for k, v in out.items()}
+            case = {"spec": s, "methods": list(methods), "workers": workers}
+            if len(set(vals.values())) == 1:
+                if vals["main"] != "ValueError":
+                    stats.record(case, {"nt": True, "labels": ["inside-workers", s["ctor"]]})
+                else:
+                    stats.discarded += 1
+            elif not fails:
+                where = sorted(k for k, v in vals.items() if v != vals["main"])
+                fails.append(Failure("inside-worker-processes", "C04:generate:differs-inside-worker-process",
+                                     f"serial generation in {where} gives other mazes than in the main process; spec={s}", case))
+        stats.extra["process-kinds"] = sorted(out)
+        return stats, fails
+
+    return run
+
+
+def _replay_workers(case):
+    txt = core.run_python(_WORKERS.format(verif=core.VERIF_DIR), {}, stdin=json.dumps({"specs": [case["spec"]], "methods": case.get("methods", ["fork"]), "workers": case.get("workers", 3)}))
+    out = json.loads(txt.strip().splitlines()[-1])
+    vals = {k: v[0] for k, v in out.items()}
+    require(len(set(vals.values())) == 1, "C04:generate:differs-inside-worker-process",
+            f"serial generation in {sorted(k for k, v in vals.items() if v != vals['main'])} gives other mazes than in the main process")
+    return {"nt": True, "labels": []}
+
+
 def subs(tier: str):
     q = tier == "quick"
     return [
         Sub("histories", check, "hypothesis", strategy=lambda: _case(6 if q else 12), examples=40 if q else 3000),
+        Sub("inside-worker-processes", _replay_workers, "custom", run=_inside_workers(12 if q else 60, ["fork", "spawn"], 3)),
         Sub("cross-process", _replay_cross, "custom", run=_cross_process(40 if q else 200, ["0", "1", "4242"] if q else ["0", "1", "4242", "random", "77"])),
     ]
